@@ -30,6 +30,8 @@ pub struct Wire2 {
     pub name: &'static str,
     pub mode: Mode,
     pub prop: &'static str,
+    /// the bearer is a kernel Unix socketpair (the `Bearer::Unix` arms of network2 run)
+    pub kernel: bool,
 }
 
 fn strict(prop: &str, what: &str, bytes: &[u8]) -> Result<(), Violation> {
@@ -460,18 +462,44 @@ impl Scenario for Wire2 {
         let total: usize = plan.iter().map(|x| x.1.len()).sum();
         cx.tr.ev("plan2", &[plan.len() as u64, total as u64, frag_order.len() as u64]);
 
-        run_sim(cx, |sh| async move {
-            let (wa, rb) = pipe("a2b", &sh, &pcfg);
-            let (wb, ra) = pipe("b2a", &sh, &pcfg);
-            let (mut rd, _w_unused) = bearer2(rb, wb).into_split();
-            let sender = if mode == Mode::Mux {
-                let (_r_unused, mut wr) = bearer2(ra, wa).into_split();
+        let kernel = self.kernel;
+        let kbuf: [Option<usize>; 2] = if kernel {
+            [*cx.ch.pick("cfg.sndbuf", &[None, Some(1usize), Some(8192), Some(65536)]), *cx.ch.pick("cfg.rcvbuf", &[None, Some(1usize), Some(8192), Some(65536)])]
+        } else {
+            [None, None]
+        };
+        if kernel {
+            let lim = kbuf[0].map(|x| x.max(4608)).unwrap_or(212_992);
+            let big = plan.iter().flat_map(|x| x.2.iter()).filter(|e| e.len() + 8 > lim).count() + frag_order.iter().filter(|f| f.1.len() + 8 > lim).count();
+            cx.st.add("fault.kernel_short_write_forced", big as u64);
+            if kbuf[0] == Some(1) {
+                cx.st.inc("fault.kernel_min_sndbuf");
+            }
+            if kbuf[1] == Some(1) {
+                cx.st.inc("fault.kernel_min_rcvbuf");
+            }
+        }
+        run_sim_opts(cx, kernel, if kernel { 2 * WATCHDOG_S } else { WATCHDOG_S }, |sh| async move {
+            type B2 = pallas_network2::bearer::Bearer;
+            // (receiving bearer, sending bearer for Mux, raw writer for Cuts, whatever must stay alive)
+            let (brx, btx, raw, keep): (B2, Option<B2>, Option<Box<dyn tokio::io::AsyncWrite + Send + Unpin>>, Box<dyn std::any::Any + Send>) = if kernel {
+                let (a, b) = unix_pair(kbuf[0], kbuf[1]);
+                if mode == Mode::Mux { (B2::Unix(b), Some(B2::Unix(a)), None, Box::new(())) } else { (B2::Unix(b), None, Some(Box::new(a)), Box::new(())) }
+            } else {
+                let (wa, rb) = pipe("a2b", &sh, &pcfg);
+                let (wb, ra) = pipe("b2a", &sh, &pcfg);
+                if mode == Mode::Mux { (bearer2(rb, wb), Some(bearer2(ra, wa)), None, Box::new(())) } else { (bearer2(rb, wb), None, Some(Box::new(wa)), Box::new(ra)) }
+            };
+            let (mut rd, _w_unused) = brx.into_split();
+            let sender = if let Some(btx) = btx {
+                let (_r_unused, mut wr) = btx.into_split();
                 let msgs: Vec<AnyMessage> = msg_order.iter().map(|(i, j)| plan[*i].1[*j].clone()).collect();
                 let sh2 = sh.clone();
                 tokio::spawn(chaos(
                     async move {
                         for (n, m) in msgs.into_iter().enumerate() {
                             wr.write_message(m, n as u32, server_bit).await.map_err(|e| Violation::new("wire", "net2-write-failed", e.to_string()))?;
+                            ev(&sh2, "sent", &[n as u64]);
                             pause(&sh2, "send.pause", 1, 4).await;
                         }
                         tokio::time::sleep(std::time::Duration::from_secs(30)).await;
@@ -483,7 +511,7 @@ impl Scenario for Wire2 {
                     (1, 8),
                 ))
             } else {
-                let mut w = wa;
+                let mut w = raw.unwrap();
                 let frags = frag_order.clone();
                 let sh2 = sh.clone();
                 tokio::spawn(chaos(
@@ -494,7 +522,7 @@ impl Scenario for Wire2 {
                         }
                         tokio::time::sleep(std::time::Duration::from_secs(30)).await;
                         drop(w);
-                        drop(ra);
+                        drop(keep);
                         Ok::<(), Violation>(())
                     },
                     &sh,
@@ -509,6 +537,7 @@ impl Scenario for Wire2 {
             while n_got < total {
                 match rd.read_full_msgs::<AnyMessage>(&mut partial).await {
                     Ok(ms) => {
+                        ev(&sh, "recv", &[ms.len() as u64]);
                         for m in ms {
                             let (p, _) = a2::kind(&m);
                             match plan.iter().position(|x| x.0 == p) {
@@ -582,7 +611,8 @@ pub fn def_c21() -> CheckDef {
         level: "fault_enumeration",
         batches: vec![
             batch(Wire1 { name: "stack1-seeded-cuts", mode: Mode::Cuts, prop: "C21" }, 20_000, 1_200_000, true),
-            batch(Wire2 { name: "stack2-seeded-cuts", mode: Mode::Cuts, prop: "C21" }, 20_000, 1_200_000, true),
+            batch(Wire2 { name: "stack2-seeded-cuts", mode: Mode::Cuts, prop: "C21", kernel: false }, 20_000, 1_200_000, true),
+            batch(Wire2 { name: "stack2-cuts-kernel-unix-socketpair", mode: Mode::Cuts, prop: "C21", kernel: true }, 4_000, 250_000, true),
         ],
         rule: "a simulated sender concatenates the encodings of 1..8 generated messages per protocol (1..3 protocols, all 11 stack-1 and 8 stack-2 protocol/message variants), cuts them into segments (streams <= 12 bytes: a seeded mask over all 2^(n-1) cut sets; longer: all-1-byte, single cut at any offset, cuts at / next to message boundaries, dense random, k random cuts; never above 65535), interleaves the fragments of different protocols and writes raw segments into a seeded pipe (short reads, stalls, delays, tiny capacities); the real Demuxer+ChannelBuffer::recv_full_msg (stack 1) and BearerReadHalf::read_full_msgs+AnyMessage::from_payload (stack 2) must yield exactly the sent messages in order, then the sentinel, with no error and no left-over bytes; non-trivial = completed run with a non-neutral choice; distinct = distinct traces",
         real: vec!["pallas_network::multiplexer::{Demuxer, Plexer, ChannelBuffer::recv_full_msg, try_decode_message}", "every stack-1 message codec", "pallas_network2::bearer::BearerReadHalf::{read_segment, read_full_msgs}", "AnyMessage::from_payload / try_decode_msg", "every stack-2 message codec"],
@@ -601,7 +631,8 @@ pub fn def_c22() -> CheckDef {
         level: "exploration",
         batches: vec![
             batch(Wire1 { name: "stack1-zoo-real-mux", mode: Mode::Mux, prop: "C22" }, 15_000, 800_000, true),
-            batch(Wire2 { name: "stack2-zoo-real-bearer", mode: Mode::Mux, prop: "C22" }, 15_000, 800_000, true),
+            batch(Wire2 { name: "stack2-zoo-real-bearer", mode: Mode::Mux, prop: "C22", kernel: false }, 15_000, 800_000, true),
+            batch(Wire2 { name: "stack2-zoo-kernel-unix-socketpair", mode: Mode::Mux, prop: "C22", kernel: true }, 4_000, 250_000, true),
         ],
         rule: "generated messages of every variant of every protocol of both stacks are (1) encoded by the real encoder and walked by an independent strict RFC 8949 parser (exactly one item, all declared lengths satisfied, no trailing bytes), (2) decoded back by the real decoder and compared, (3) sent through the real muxer / write_message, a seeded pipe and the real demuxer / read_full_msgs and compared again at the receiving agent; per-variant counters must all be non-zero; non-trivial = completed run with a non-neutral choice; distinct = distinct traces",
         real: vec!["every Encode/Decode impl of pallas_network::miniprotocols::*::Message and payload types", "pallas_network2::protocol::* codecs, AnyMessage::{payload, from_payload}", "Plexer/Muxer/Demuxer/ChannelBuffer", "network2 BearerWriteHalf::write_message / BearerReadHalf::read_full_msgs"],
